@@ -115,6 +115,9 @@ class CallGraph(object):
             if also_call:
                 add(m.method(cq, '__call__'), cq)
 
+        if isinstance(f, ast.Call) and isinstance(f.func, ast.Name) and f.func.id == 'getattr' and len(f.args) >= 2:
+            # getattr(self, <name>)(...) called directly
+            return self._getattr_fanout(fi, recv, f)
         if isinstance(f, ast.Name):
             nested = self._nested(fi, f.id)
             if nested is not None:
